@@ -30,6 +30,9 @@ VARIANTS = {
     # source change); the harness can make the k-th request of a call fail.  Used by C18 for the bad_alloc path of the C++ wrappers.
     "fa": dict(cc="gcc", cflags=["-O1", "-g", "-fno-omit-frame-pointer"], ld=[],
                libflags=["-Dmalloc=xv_malloc", "-Dcalloc=xv_calloc", "-Drealloc=xv_realloc", "-Dstrdup=xv_strdup", "-Dstrndup=xv_strndup"]),
+    "fa_asan": dict(cc="clang", cflags=["-O1", "-g", "-fno-omit-frame-pointer", "-fsanitize=address,undefined", "-fno-sanitize=float-divide-by-zero,nonnull-attribute",
+                                        "-fsanitize-recover=all"], ld=["-fsanitize=address,undefined"],
+                    libflags=["-Dmalloc=xv_malloc", "-Dcalloc=xv_calloc", "-Drealloc=xv_realloc", "-Dstrdup=xv_strdup", "-Dstrndup=xv_strndup"]),
     # compile with the TSan instrumentation pass only; linked against harness/accrt.c
     "acc": dict(cc="clang", cflags=["-O1", "-g", "-fno-omit-frame-pointer", "-fsanitize=thread"], ld=[]),
 }
